@@ -131,9 +131,11 @@ class Ctx:
             raise PathAbort("path condition unsatisfiable")
         if can_f == "unsat":
             self.path_hyps.append(z)   # implied; no fork (kept for later queries' benefit)
+            self.decisions.append([True, True])      # forced: recorded so that replayed trails stay aligned
             return True
         if can_t == "unsat":
             self.path_hyps.append(z3.Not(z))
+            self.decisions.append([False, True])
             return False
         self.decisions.append([True, False])
         self.path_hyps.append(z)
@@ -143,6 +145,8 @@ class Ctx:
         """Emit an obligation: cond must follow from the hypotheses on this path.
         Returns True if proved.  If not proved the condition is assumed afterwards so that one
         failure is reported once."""
+        if getattr(self, "suppress", 0):
+            return True
         z = as_z3bool(cond)
         key = key or f"{self.where}:{kind}"
         if z is True:
